@@ -38,7 +38,7 @@ PROPS = {
     'C07': dict(streams=['ticks', 'write'], modules=['C07', 'C07Float']),
     'C08': dict(streams=['midix', 'write'], modules=['C08', 'C08Bytes']),
     'C09': dict(streams=['robust', 'conv', 'write', 'dict', 'sizes'], modules=['C09', 'IO']),
-    'C10': dict(streams=['conv', 'wconv', 'note', 'scale', 'sizes', 'repeat'], modules=['C10', 'IO']),
+    'C10': dict(streams=['conv', 'wconv', 'note', 'scale', 'sizes', 'repeat'], modules=['C10', 'C10Conv', 'IO']),
     'C11': dict(streams=['variants', 'lex', 'sizes']),
     'C12': dict(streams=['repeat', 'chain', 'scale'], race=True, modules=['C12', 'IO']),
     'C13': dict(streams=['scale', 'diatonic', 'conv', 'write']),
